@@ -270,7 +270,7 @@ def r3(cx):
     cx.fn(body.fn)
     du = Q.DefUse(body)
     many = Q.find_aggregates(body, GLOB + 'Inner', 'Many')
-    sorts = Q.find_calls(body, [re.compile(r'^core::slice::<impl \[T\]>::sort(_unstable)?(_by|_by_key|_by_cached_key)?$')])
+    sorts = Q.find_calls(body, [re.compile(r'^(core|alloc)::slice::<impl \[T\]>::sort(_unstable)?(_by|_by_key|_by_cached_key)?$')])
     cx.site('%s: Inner::Many x%d, sort x%d' % (body.fn, len(many), len(sorts)))
     if not many:
         cx.violation(GLOB_FN, 'no-many', 'glob never delivers more than one result', loc=body.loc(body.d))
@@ -295,7 +295,10 @@ def r3(cx):
                 continue          # natural order of Field? not the case today
             clo = du.origin(st['a'][1])
             cx.require(clo['k'] == 'agg' and clo['rv'].get('ak') == 'closure', 'sort comparator is not a closure')
-            _check_comparator(cx, F, clo['rv']['def'])
+            if Q.callee_is(st, [re.compile(r'_key$')]):
+                _check_key(cx, F, clo['rv']['def'])
+            else:
+                _check_comparator(cx, F, clo['rv']['def'])
         conds = Q.dominating_conditions(F, body, du, b)
         if not any(Q.cond_is_call(org, ['alloc::vec::Vec::<T, A>::is_empty']) and lab == ('bool', False) and
                    _behind(du, org['t']['a'][0]) == vec_local for org, lab, e in conds):
@@ -349,6 +352,24 @@ def _sorted_local(body, du, st):
         else:
             return l
     return l
+
+
+def _check_key(cx, F, cdef):
+    """|f| f.value.clone() (or a borrow of it): the key is the pathname, not reversed."""
+    cb = F.body(cdef)
+    cx.fn(cdef)
+    fields = set()
+    for b, j, s in cb.stmts():
+        if s['k'] == 'assign':
+            for pl in Q.rvalue_places(s['rv']):
+                for e in pl.get('p') or []:
+                    if isinstance(e, dict) and 'f' in e:
+                        fields.add((pl['l'], e['f']))
+    rev = [s for b, j, s in cb.stmts() if s['k'] == 'assign' and s['rv']['k'] == 'agg' and 'Reverse' in str(s['rv'].get('adt'))]
+    other_calls = [t for b, t in cb.calls() if not Q.callee_is(t, [re.compile(r'Clone>::clone$'), re.compile(r'::as_str$'), re.compile(r'Deref>::deref$')])]
+    cx.site('%s: key reads %s' % (cdef, sorted(fields)))
+    if fields != {(2, 'value')} or rev or other_calls:
+        cx.violation(cdef, 'comparator', 'the sort key must be the pathname (field value), ascending', loc=cb.loc(cb.d))
 
 
 def _check_comparator(cx, F, cdef):
